@@ -1,11 +1,12 @@
 #!/bin/sh
-# Entry point of every registered check: (re)build the engine if needed and
-# run it. The engine loads /repo's current working tree (go/packages + go/ssa)
-# on every run; nothing about /repo is cached.
+# Entry point of every registered check: (re)build the engine and run it.
+# The engine loads /repo's current working tree (go/packages + go/ssa) on
+# every run; nothing about /repo is cached. The engine also links /repo's
+# build (only for the third-party codec boundary), so it is rebuilt whenever
+# /repo or the engine changed (go build is incremental).
 cd /verif || exit 2
 export GOFLAGS=-mod=mod GOPROXY=off GOTOOLCHAIN=local PATH=/opt/veriftools/go1.26.8/bin:$PATH
 unset GOSUMDB
-if [ ! -x bin/bklsym ] || [ -n "$(find engine -name '*.go' -newer bin/bklsym 2>/dev/null | head -1)" ]; then
-  (cd engine && go build -o ../bin/bklsym ./cmd/bklsym) || { echo "engine build failed" >&2; exit 2; }
-fi
+mkdir -p bin
+(cd engine && go build -o ../bin/bklsym ./cmd/bklsym) || { echo "engine build failed" >&2; exit 2; }
 exec bin/bklsym "$@"
